@@ -28,7 +28,7 @@ CLAIMED = {
   "exhaustiveness + sibling table agreement over syntax trees resolved with go/types (custom lint)", "DESIGN.md §2 C02"),
  "C03": ("other",
   "Structural clauses of constant handling: folder tokens agree with their action; go/constant accessors agree with the reflect kind of their case and both parts of complex constants are examined; the integer width table equals 8*sizeof per kind and is complete; signed kinds are bounded with width-1 bits and cannot reach the unsigned full-width comparison; iota bookkeeping pairing at both sites; literals are materialised by go/constant's own parser. Arbitrary-precision results, default types and rounding are go/constant's and are trusted; 'rejected instead of evaluated' is decided only through the representability clauses.",
-  "Defect D2 (signed bound) was found by R03.4 and repaired. Width table checked for the host configuration only.",
+  "Defects D2 (signed bound) and D17 (int width on 32-bit hosts) were found by R03.4/R03.3 and repaired. Width table checked for the host configuration (quick) and GOARCH=386 (thorough).",
   "table agreement + go/cfg reachability + sibling cross-check (custom go/types lint)", "DESIGN.md §2 C03"),
 
  "C06": ("other",
@@ -72,7 +72,7 @@ CLAIMED = {
   "table/who-may-write lint + effect rules slot-filled from the SSA of the reference library (custom go/ssa analyzer)", "DESIGN.md §2 C13"),
  "C14": ("translation_validation",
   "Complete validation of the committed output of the extract translator against its input: every one of the ~16 000 (quick: host platform, both releases) / ~187 000 (thorough: all 47 GOOS/GOARCH of syscall, both releases) binding entries is checked to denote its namesake in one of the generated forms, untyped constants are compared exactly with go/constant, the bound name sets are compared with the library's exported non-generic objects per release (GOROOT/api deltas), table keys / duplicates / build-constraint headers are checked, and every interface wrapper is checked field-by-field and method-by-method (signature identity, forwarding call shape). The space is finite and enumerated completely.",
-  "Trusted: go/types, go/constant, GOROOT/api of the installed toolchain; Go 1 compatibility for go1.21/go1.22 symbols judged against the 1.23.5 library. Known finding K10 (11 math float constants bound with a rounded literal, both releases) is printed as KNOWN-FINDING. Completeness of syscall on platforms GOROOT/api does not describe is not decided (stated per platform in the evidence).",
+  "Trusted: go/types, go/constant, GOROOT/api of the installed toolchain; Go 1 compatibility for go1.21/go1.22 symbols judged against the 1.23.5 library. Defects D9, D10 and D18 (formerly known finding K10) were found by this check and repaired; no known finding remains for C14. Completeness of syscall on platforms GOROOT/api does not describe is not decided (stated per platform in the evidence).",
   "translation validation of generated tables against go/types + go/constant + GOROOT/api (custom analyzer)", "DESIGN.md §2 C14"),
 
  "C17": ("other",
